@@ -16,6 +16,7 @@ def run(chk):
     chk.rule("R3", "MapOfConversions{To,From}Standard<U,T>[X] is Conversions<U,X>::{To,From}Standard<T>, which applies Conversion<U,X> to each of `size` elements")
     chk.rule("R4b", "rigorous bound for each multiplicative direction: the constants are evaluated exactly as IEEE round-to-nearest arithmetic in T would, "
                     "giving |machine factor / exact factor - 1| in ulps, plus one ulp per rounding on the value path (and one per libm pow): <= 8 ulp per direction (tree maximum 4.3)")
+    chk.rule("R4c", "every intermediate on the value path lies between the input and the result in magnitude (prefix factors within [min(1,|f|), max(1,|f|)]): no overflow/underflow unless the exact result overflows/underflows")
     chk.rule("R4", "a multiplicative unit's path uses only * and / by constants; K roundings on To+From gives at most K ulps; K <= 32")
     chk.assumptions += [
         "R4 bounds the relative error by K*u/(1-K*u) in the standard model of floating-point arithmetic, assuming no overflow/underflow; it does not establish the tighter measured figure",
@@ -98,6 +99,12 @@ def run(chk):
                                 from fractions import Fraction as Fr
                                 PI = Fr("3.14159265358979323846264338327950288419716939937510582097494459230781640628620899")
                                 exact = q * PI ** kk
+                            # R4c: no intermediate on the value path leaves the range spanned by the input and the result
+                            pref = [abs(x) for x in affine.value_path_prefixes(a_x.term, "v", T)]
+                            lo, hi = min(1, abs(fhat)), max(1, abs(fhat))
+                            outside = [x for x in pref[:-1] if x > hi or x < lo]
+                            if outside:
+                                chk.violated("R4c", inst + ":" + direction, "the value is scaled by %.6g before reaching its final factor %.6g: the intermediate overflows (or underflows) for finite inputs whose converted value is finite" % (float(outside[0]), float(fhat)), loc_to)
                             rel = abs(fhat / exact - 1)
                             ulps = float(rel * 2 ** affine.MANT[T]) + nops + extra
                             ulp_max[T] = max(ulp_max.get(T, 0.0), ulps)
